@@ -110,7 +110,8 @@ def decide(prop, tier='quick', seed=0, units=None, jobs=8, quiet=False):
             undecided.append('%s: %s' % (r.unit, r.reason))
         for f in r.fns:
             if f.get('excluded') and not f['known'] and (prop in f['props'] or prop in f['safety'] or any(prop in c['tags'] for c in f['clauses'])):
-                undecided.append('%s: %s is outside the verifier\'s reach in its current shape (%s)' % (r.unit, f['qual'], '; '.join(m for (m, q) in getattr(r, 'hard_first', []) if q == f['qual'])[:300]))
+                why = '; '.join([m for (m, q) in getattr(r, 'hard_first', []) if q == f['qual']] + [l for l in getattr(r, 'lost', []) if l.startswith(f['qual'] + ':')])
+                undecided.append('%s: %s is outside the verifier\'s reach in its current shape (%s)' % (r.unit, f['qual'], why[:300]))
         for a in r.assumptions:
             if a not in assumptions:
                 assumptions.append(a)
